@@ -110,6 +110,19 @@ def gen_axis(rng, *, max_bins=7, allow_gaps=True, families=None):
             bins.append([e[i], e[i + 1]])
             i += 1 if rng.random() < 0.5 else 2  # adjacent or leave a gap
         return {"kind": "static", "bins": bins, "ire": rng.random() < 0.7}
+    if fam == "near":
+        # bins given as pairs whose inner edges nearly (but not exactly) touch: 0.1*3 vs 0.3, one ulp, 1e-9 relative
+        e = gen_edges(rng, n)
+        bins = []
+        for i in range(n):
+            left = e[i]
+            if i and rng.random() < 0.6:
+                left = rng.choice([near(e[i], +1), e[i] * (1 + 1e-9) if e[i] > 0 else near(e[i], +1),
+                                   e[i] + abs(e[i]) * 1e-7 + 1e-12])
+                if not left < e[i + 1]:
+                    left = near(e[i], +1)
+            bins.append([left, e[i + 1]])
+        return {"kind": "static", "bins": bins, "ire": rng.random() < 0.7}
     if fam == "numpy":
         return {"kind": "numpy", "edges": gen_edges(rng, n), "ire": rng.random() < 0.7}
     if fam == "fixed":
